@@ -119,8 +119,9 @@ def synth_json(ids, subsets, compressed, mtv=13):
     ]
 
 
-def build_pool():
-    """dict(msgs=[{name, cls, hex}], jsons=[{name, cls, text}], files=[{name, hex}], paths={msgname: [...]})"""
+def build_pool(ctx=None):
+    """dict(msgs=[{name, cls, hex}], jsons=[{name, cls, text}], files=[{name, hex}], paths={msgname: [...]},
+    xv=[{name, shape, E, msgs, jsons}], expect={msgname: observation of a fresh decode in this process})"""
     from pybufrkit.decoder import Decoder
     from pybufrkit.encoder import Encoder
     ddir = os.path.join(core.REPO, 'tests', 'data')
@@ -204,6 +205,10 @@ def build_pool():
                 jsons.append({'name': fn + '!short', 'cls': 'damaged', 'text': json.dumps(jj)})
             except Exception:
                 pass
+    # cross-version families: the same template under table groups that define one of its descriptors differently
+    xv, expect = [], {}
+    if ctx is not None:
+        xv, expect = build_xv(ctx, msgs, jsons)
     # candidate query paths per message
     paths = {}
     dec = Decoder()
@@ -238,7 +243,48 @@ def build_pool():
         ps.append('/999999')
         ps.append('@[7]/001001')
         paths[m['name']] = ps
-    return {'msgs': msgs, 'jsons': jsons, 'files': files, 'paths': paths}
+    return {'msgs': msgs, 'jsons': jsons, 'files': files, 'paths': paths, 'xv': xv, 'expect': expect}
+
+
+def build_xv(ctx, msgs, jsons):
+    """Families of harness/xversion.py (derived mechanically from the bundled tables) appended to the pool.  Every member
+    was encoded and decoded with FRESH objects and compared with the model under the tables its section 1 names; the
+    observation of that fresh decode is kept as `expect` and must be what a fresh interpreter gives as well."""
+    from pybufrkit.decoder import Decoder
+    from harness import xversion
+    cat = xversion.Catalogue()
+    nf = 44 if ctx.tier == 'quick' else 160
+    fams, problems, stats = xversion.build_families(ctx.driver, ctx.rng('xv'), nf, cat=cat)
+    for k, v in sorted(cat.summary().items()):
+        if isinstance(v, dict):
+            for kk, vv in v.items():
+                ctx.count('tables:%s:%s' % (k, kk), vv)
+        else:
+            ctx.count('tables:' + k, v)
+    for k, v in sorted(stats.items()):
+        ctx.count('xv:' + k, v)
+    for f, m, why in problems:
+        ctx.violation('cross-version family %s (%s over %s, table group %s): %s (ids %s)' % (f['name'], f['shape'], f['E'], m['group'], why, f['ids']),
+                      {'mode': 'xv-model', 'ids': f['ids'], 'group': m['group'], 'json': m.get('json')},
+                      signature={'kind': 'xv-fresh-vs-model', 'shape': f['shape'], 'what': why.split(':')[0]})
+    xv, expect = [], {}
+    for f in fams:
+        ent = {'name': f['name'], 'shape': f['shape'], 'E': f['E'], 'class': f['class'], 'ids': f['ids'], 'msgs': [], 'jsons': []}
+        for m in f['members']:
+            name = '%s@%s' % (f['name'], m['group'])
+            msgs.append({'name': name, 'cls': 'xv', 'hex': m['bytes'].hex()})
+            jsons.append({'name': name + '.json', 'cls': 'xv', 'text': m['json']})
+            ent['msgs'].append(name)
+            ent['jsons'].append(name + '.json')
+            try:
+                expect[name] = obs_message(Decoder().process(m['bytes'], wire_template_data=False))
+            except Exception as e:  # noqa
+                expect[name] = core.err_tag(e)
+            ctx.traces += 2            # fresh encode + fresh decode of this member compared with the model
+        ctx.count('xv:shape:' + f['shape'])
+        ctx.count('xv:change:' + f['class'])
+        xv.append(ent)
+    return xv, expect
 
 
 _POOL = None
@@ -386,6 +432,9 @@ class Runner(object):
         self.coders = {}
         self.objs = {}
         self.fresh_fp = {}
+        # renderer / querent / parser objects an application keeps: one per (class, slot), re-used for every view of the
+        # history that names the slot (`ro` of the operation; -1 = a new object for this view only)
+        self.viewers = {}
 
     def audit(self):
         """the table groups held by the process-wide cache still equal a fresh load of their keys (no cached
@@ -461,7 +510,19 @@ class Runner(object):
         if k == 'view':
             msg = self.obtain(op['src'], op['c'], op['m'])
             msg.wire()
-            return self.view(msg, op['v'])
+            return self.view(msg, op['v'], op.get('ro', -1))
+        if k == 'drop':
+            # the caller lets go of message objects (all, or the one named) and the garbage collector runs: everything only
+            # they kept alive (per-message descriptors, nodes, with an evicted table group its Table B/D objects) is freed
+            # and its id() can come back on a later object
+            if op.get('m') is None:
+                self.objs.clear()
+            else:
+                self.objs.pop((op['src'], op['c'], op['m']), None)
+            msg = None
+            import gc
+            gc.collect()
+            return 'done'
         if k == 'scan':
             from pybufrkit.decoder import generate_bufr_message
             out = []
@@ -479,22 +540,31 @@ class Runner(object):
             return 'done'
         raise ValueError('bad op %r' % (op,))
 
-    def view(self, msg, v):
+    def viewer(self, what, ro, make):
+        if ro is None or ro < 0:
+            return make()
+        o = self.viewers.get((what, ro))
+        if o is None:
+            o = self.viewers[(what, ro)] = make()
+        return o
+
+    def view(self, msg, v, ro=-1):
         from pybufrkit import renderer
         if v[0] == 'r':
             cls = {'flat_text': renderer.FlatTextRenderer, 'nested_text': renderer.NestedTextRenderer,
                    'flat_json': renderer.FlatJsonRenderer, 'nested_json': renderer.NestedJsonRenderer}[v[1]]
-            r = cls().render(msg)
+            r = self.viewer(v[1], ro, cls).render(msg)
             return {'len': len(r), 'dig': dig(r)}
         if v[0] == 'q':
             from pybufrkit.dataquery import DataQuerent, NodePathParser
-            res = DataQuerent(NodePathParser()).query(msg, v[1])
+            res = self.viewer('querent', ro, lambda: DataQuerent(NodePathParser())).query(msg, v[1])
             vals = [(i, res.get_values(i)) for i in res.subset_indices()]
             return {'n': len(vals), 'dig': dig(vals), 'flat': dig(res.all_values(flat=True)),
-                    'text': dig(renderer.FlatTextRenderer().render(res))}
+                    'text': dig(self.viewer('flat_text', ro, renderer.FlatTextRenderer).render(res))}
         if v[0] == 'md':
             from pybufrkit.mdquery import MetadataQuerent, MetadataExprParser
-            return {'md': dig(MetadataQuerent(MetadataExprParser()).query(msg, v[1]))}
+            q = self.viewer('mdquerent', ro, lambda: MetadataQuerent(MetadataExprParser()))
+            return {'md': dig(q.query(msg, v[1]))}
         raise ValueError('bad view %r' % (v,))
 
 
@@ -656,9 +726,19 @@ def op_key(op):
     return json.dumps(op, sort_keys=True)
 
 
+def ref_key(op):
+    """key of the reference run (the operation alone in a fresh interpreter): which renderer / querent object of the
+    history serves a view (`ro`) makes no difference there, dropping objects neither"""
+    if op['k'] == 'drop':
+        return json.dumps({'k': 'drop'})
+    if 'ro' in op:
+        op = {k: v for k, v in op.items() if k != 'ro'}
+    return json.dumps(op, sort_keys=True)
+
+
 def kind_str(op):
     if op['k'] == 'view':
-        return 'view:%s' % (op['v'][1] if op['v'][0] == 'r' else op['v'][0])
+        return 'view:%s%s' % (op['v'][1] if op['v'][0] == 'r' else op['v'][0], '' if op.get('ro', -1) < 0 else ':kept-object')
     if op['k'] == 'proc':
         return op['src'] + (':wired' if op['wire'] else ':unwired')
     return op['k']
@@ -699,8 +779,22 @@ def gen_history(rng, pool, n, versions, heavy):
     cfgs = cfgs_h
     ops = []
     recent = []
+
+    def ro():
+        # which renderer / querent object serves the view: mostly the ones the history keeps (two sets), sometimes a new one
+        return rng.choice([0, 0, 0, 1, -1])
     while len(ops) < n:
         r = rng.random()
+        if recent and r < 0.03:
+            # the caller lets go of message objects; the garbage collector runs
+            if rng.random() < 0.5:
+                ops.append({'k': 'drop'})
+                recent = []
+            else:
+                src, c, m = recent.pop(rng.randrange(len(recent)))
+                ops.append({'k': 'drop', 'src': src, 'c': c, 'm': m})
+                recent = [x for x in recent if x != (src, c, m)]
+            continue
         if recent and r < 0.30:
             # come back to an object handled a few operations ago: re-render / re-query / re-wire / re-decode
             src, c, m = rng.choice(recent[-6:])
@@ -710,7 +804,7 @@ def gen_history(rng, pool, n, versions, heavy):
             elif rr < 0.25:
                 ops.append({'k': 'wire', 'src': src, 'c': c, 'm': m})
             else:
-                ops.append({'k': 'view', 'src': src, 'c': c, 'm': m, 'v': gen_view(rng, pool['paths'].get(m, []))})
+                ops.append({'k': 'view', 'src': src, 'c': c, 'm': m, 'v': gen_view(rng, pool['paths'].get(m, [])), 'ro': ro()})
             continue
         if r < 0.62:
             m = rng.choice(mine)
@@ -720,7 +814,7 @@ def gen_history(rng, pool, n, versions, heavy):
         elif r < 0.74:
             m = rng.choice(mine)
             c = pick(m)
-            ops.append({'k': 'view', 'src': 'dec', 'c': c, 'm': m, 'v': gen_view(rng, pool['paths'].get(m, []))})
+            ops.append({'k': 'view', 'src': 'dec', 'c': c, 'm': m, 'v': gen_view(rng, pool['paths'].get(m, [])), 'ro': ro()})
             recent.append(('dec', c, m))
         elif r < 0.86:
             m = rng.choice(myj)
@@ -730,7 +824,7 @@ def gen_history(rng, pool, n, versions, heavy):
         elif r < 0.90:
             m = rng.choice(myj)
             c = pick(m)
-            ops.append({'k': 'view', 'src': 'enc', 'c': c, 'm': m, 'v': ['r', rng.choice(RENDERERS)]})
+            ops.append({'k': 'view', 'src': 'enc', 'c': c, 'm': m, 'v': ['r', rng.choice(RENDERERS)], 'ro': ro()})
             recent.append(('enc', c, m))
         elif r < 0.93:
             ops.append({'k': 'scan', 'c': rng.choice(cfgs), 'f': rng.choice([f['name'] for f in pool['files'] if f['name'] != 'asr3_190.bufr'] if rng.random() < 0.8 else [f['name'] for f in pool['files']])})
@@ -740,6 +834,96 @@ def gen_history(rng, pool, n, versions, heavy):
             ops.append({'k': 'inval'})
         else:
             ops.append({'k': 'limit', 'n': rng.choice([1, 2, 3])})
+    return ops
+
+
+XV_CFGS = [None, 1, 50]
+
+
+def xv_views(rng, pool, m):
+    """the views asked of a cross-version message: few kinds, so that the same request recurs across histories"""
+    ps = pool['paths'].get(m, [])
+    r = rng.random()
+    if r < 0.45:
+        return ['r', 'flat_text']
+    if r < 0.60:
+        return ['r', 'nested_text']
+    if r < 0.75:
+        return ['r', 'nested_json']
+    if r < 0.80:
+        return ['r', 'flat_json']
+    if ps:
+        return ['q', ps[rng.randrange(min(2, len(ps)))]]
+    return ['md', MD_EXPRS[2]]
+
+
+def gen_xv_history(rng, pool, n_other, versions, heavy):
+    """ONE Decoder and ONE Encoder object (one compiled-template configuration for the whole history) and one set of
+    renderer / querent objects over 1-3 cross-version families: the members of a family - the same descriptors under
+    table groups that define one of them differently - are decoded / encoded one after the other, in changing order,
+    several times, and rendered / queried in between; some random other traffic is mixed in."""
+    fams = rng.sample(pool['xv'], min(len(pool['xv']), rng.randint(1, 3)))
+    c = rng.choice(XV_CFGS)
+    core_ops = []
+    for _ in range(rng.randint(2, 4)):
+        rng.shuffle(fams)
+        for f in fams:
+            order = list(range(len(f['msgs'])))
+            rng.shuffle(order)
+            if rng.random() < 0.4:
+                order = order + order[:1]
+            for k in order:
+                r = rng.random()
+                if r < 0.7:
+                    m = f['msgs'][k]
+                    core_ops.append({'k': 'proc', 'src': 'dec', 'c': c, 'm': m, 'wire': True})
+                    for _ in range(rng.choice([0, 1, 1, 2])):
+                        core_ops.append({'k': 'view', 'src': 'dec', 'c': c, 'm': m, 'v': xv_views(rng, pool, m), 'ro': 0})
+                    if rng.random() < 0.3:
+                        core_ops.append({'k': 'drop'})
+                else:
+                    m = f['jsons'][k]
+                    core_ops.append({'k': 'proc', 'src': 'enc', 'c': c, 'm': m, 'wire': True})
+                    if rng.random() < 0.4:
+                        core_ops.append({'k': 'view', 'src': 'enc', 'c': c, 'm': m, 'v': ['r', rng.choice(['flat_text', 'nested_text'])], 'ro': 0})
+    other = gen_history(rng, pool, n_other, versions, heavy) if n_other else []
+    # the other traffic is spliced in blocks between the operations of the families (their order is kept)
+    ops = []
+    cuts = sorted(rng.randrange(len(core_ops) + 1) for _ in range(4)) if other else []
+    blocks = [other[i * len(other) // 4:(i + 1) * len(other) // 4] for i in range(4)] if other else []
+    for i, op in enumerate(core_ops):
+        while cuts and cuts[0] == i:
+            cuts.pop(0)
+            ops.extend(blocks.pop(0))
+        ops.append(op)
+    for b in blocks:
+        ops.extend(b)
+    return ops
+
+
+def gen_stream_history(rng, pool, n_msgs):
+    """A program that converts a stream of messages: one Decoder, one renderer of each kind, one querent; every message is
+    decoded, rendered, queried and DROPPED (garbage collected) before the next one is looked at, so that the addresses of
+    its per-message objects (associated-field / marker / skipped descriptors, nodes, with a small table cache the Table B
+    descriptors of an evicted group) are handed to the objects of later messages."""
+    c = rng.choice([None, None, 50])
+    # messages with many per-message descriptor objects: cross-version families (associated fields, markers), the
+    # synthetic operator templates, real messages with local tables / bit-maps
+    names = [m for f in pool['xv'] if f['shape'] in ('wide-assoc', 'assoc', 'marker', 'chain', 'qa222', 'seq') for m in f['msgs']]
+    names += [m['name'] for m in pool['msgs'] if m['cls'] == 'synthetic' and m['name'] != 'syn_f11_203']
+    few = rng.sample(names, min(len(names), rng.randint(2, 6)))
+    kinds = rng.choice([['flat_text'], ['flat_text'], ['flat_text', 'nested_text'], ['nested_text', 'nested_json'], ['flat_text', 'flat_json']])
+    ops = []
+    for i in range(n_msgs):
+        m = few[i % len(few)] if rng.random() < 0.85 else rng.choice(names)
+        ops.append({'k': 'proc', 'src': 'dec', 'c': c, 'm': m, 'wire': True})
+        for kd in kinds:
+            ops.append({'k': 'view', 'src': 'dec', 'c': c, 'm': m, 'v': ['r', kd], 'ro': 0})
+        if rng.random() < 0.3:
+            ps = pool['paths'].get(m, [])
+            if ps:
+                ops.append({'k': 'view', 'src': 'dec', 'c': c, 'm': m, 'v': ['q', ps[0]], 'ro': 0})
+        ops.append({'k': 'drop'})
     return ops
 
 
@@ -793,7 +977,7 @@ def check_cache_level(ctx, mp, rng):
 def signature_of(ops, idx, pool_cls):
     op = ops[idx]
     same = any(o.get('m') == op.get('m') and o.get('c') == op.get('c') and o.get('src') == op.get('src') for o in ops[:idx] if 'm' in o) if 'm' in op else False
-    return {'kind': 'history-dependence', 'op': kind_str(op), 'prefix': sorted({kind_str(o) for o in ops[:idx]}),
+    return {'kind': 'history-dependence', 'op': kind_str(op), 'prefix': sorted({kind_str(o) for o in ops[:idx] if o['k'] != 'drop'}),
             'input_class': pool_cls.get(op.get('m') or op.get('f'), '-'), 'same_object_before': same}
 
 
@@ -825,14 +1009,15 @@ def shrink(mp, pool_path, limit, prefix, final, ref, budget=120):
     return cur
 
 
-def evaluate_histories(ctx, mp, pool_path, pool, hists):
+def evaluate_histories(ctx, mp, pool_path, pool, hists, kinds=None):
     """hists: list of (limit, ops).  Runs references (fresh interpreter per distinct op), the histories, compares."""
     pool_cls = {m['name']: m['cls'] for m in pool['msgs']}
     pool_cls.update({j['name']: j['cls'] for j in pool['jsons']})
+    kinds = kinds or ['random'] * len(hists)
     distinct = {}
     for limit, ops in hists:
         for op in ops:
-            distinct.setdefault(op_key(op), op)
+            distinct.setdefault(ref_key(op), json.loads(ref_key(op)))
     keys = sorted(distinct)
     import time
     t0 = time.time()
@@ -849,16 +1034,33 @@ def evaluate_histories(ctx, mp, pool_path, pool, hists):
                           {'mode': 'history', 'limit': None, 'ops': [distinct[k]]}, signature={'kind': 'fresh-vs-fresh', 'op': kind_str(distinct[k])})
     t1 = time.time()
     ctx.count('oracle:distinct-operations (fresh interpreter each)', len(keys))
+    # the cross-version messages: what a fresh interpreter decodes = what the fresh Decoder of this process decoded when
+    # the pool was built (and that was compared with the model under the tables the message names)
+    for k in keys:
+        op = distinct[k]
+        if op['k'] == 'proc' and op['src'] == 'dec' and op['m'] in pool.get('expect', {}):
+            ctx.count('xv:fresh-interpreter decode = fresh object = model')
+            if refs[k] != pool['expect'][op['m']]:
+                ctx.violation('decoding %s first in a fresh interpreter gives %s, a fresh Decoder of the checking process gave %s (compared with the model)'
+                              % (op['m'], _short(refs[k]), _short(pool['expect'][op['m']])),
+                              {'mode': 'history', 'limit': None, 'ops': [op]}, signature={'kind': 'fresh-vs-parent', 'op': kind_str(op)})
     results = mp.map(run_history, [{'pool': pool_path, 'limit': limit, 'ops': ops} for limit, ops in hists], chunksize=1)
     ctx.notes.append('timing: %d reference operations in fresh interpreters %.1fs, %d histories %.1fs' % (len(keys), t1 - t0, len(hists), time.time() - t1))
     logged = []
     for hi, ((limit, ops), res) in enumerate(zip(hists, results)):
+        ctx.count('oracle:histories:kind:' + kinds[hi])
+        xvm = [o['m'].split('@')[0] for o in ops if o['k'] == 'proc' and pool_cls.get(o.get('m')) == 'xv']
+        ctx.count('oracle:cross-version coder re-use (same family, another table group, same coder object)',
+                  sum(1 for a, b in zip(xvm, xvm[1:]) if a == b))
+        ctx.count('oracle:views through a kept renderer / querent object', sum(1 for o in ops if o['k'] == 'view' and o.get('ro', -1) >= 0))
+        ctx.count('oracle:drops (objects released, gc.collect())', sum(1 for o in ops if o['k'] == 'drop'))
         groups = {l[0] for l in res['log'] if l[0] != '#inval'}
         evictions = sum(1 for a, b in zip(res['log'], res['log'][1:]) if any(k not in b[2] for k in a[2]))
         revisit = len(ops) - len({op_key(o) for o in ops})
         nfail = sum(1 for o in res['out'] if isinstance(o, str) and o.startswith('err'))
         ctx.case({'limit': limit, 'n': len(ops), 'ops': dig(ops)},
-                 nontrivial=(evictions > 0 and revisit > 0 and nfail > 0 and len(groups) > (limit or 50) or (limit or 50) >= 50 and revisit > 0),
+                 nontrivial=(evictions > 0 and revisit > 0 and (nfail > 0 or kinds[hi] != 'random') and len(groups) > (limit or 50)
+                             or (limit or 50) >= 50 and revisit > 0),
                  sample=False)
         if hi < 3:
             ctx.samples.append({'limit': limit, 'n_ops': len(ops), 'first_ops': ops[:6], 'table_groups': len(groups), 'evictions': evictions})
@@ -877,7 +1079,7 @@ def evaluate_histories(ctx, mp, pool_path, pool, hists):
                           {'mode': 'history', 'limit': limit, 'ops': ops[:i + 1]},
                           signature={'kind': 'cached-group-mutated', 'op': kind_str(ops[i]), 'input_class': pool_cls.get(ops[i].get('m') or ops[i].get('f'), '-')})
         for i, (op, o) in enumerate(zip(ops, res['out'])):
-            ref = refs[op_key(op)]
+            ref = refs[ref_key(op)]
             if o != ref:
                 small = shrink(mp, pool_path, limit, ops[:i], op, ref)
                 sops = small + [op]
@@ -905,7 +1107,7 @@ def run(ctx):
     logging.disable(logging.CRITICAL)
     nproc = min(16, os.cpu_count() or 1)
     # pool of inputs
-    pool = build_pool()
+    pool = build_pool(ctx)
     cdir = os.path.join(core.VERIF, '.cache')
     os.makedirs(cdir, exist_ok=True)
     pool_path = os.path.join(cdir, 'c13_pool_%s.json' % dig(pool))
@@ -956,7 +1158,25 @@ def run(ctx):
                 ops = ops[:cut] + pre + ops[cut:]
                 ops = [o for o in ops if o['k'] != 'limit']
             hists.append((limit, ops))
-        logged = evaluate_histories(ctx, mp, pool_path, pool, hists)
+        kinds = ['corpus'] * ncorpus + ['random'] * nh
+        # (c) cross-version histories: one Decoder / Encoder / renderer set over families that use the same descriptors
+        #     under table groups defining them differently
+        xrng = ctx.rng('xv-histories')
+        nx = 40 if ctx.tier == 'quick' else 300
+        for i in range(nx if gpool['xv'] else 0):
+            limit = xrng.choice([1, 2, 3, 3, 50])
+            ops = gen_xv_history(xrng, gpool, xrng.choice([0, 0, 12, 30]), versions, heavy)
+            if limit == 50:
+                ops = [o for o in ops if o['k'] != 'limit']
+            hists.append((limit, ops))
+            kinds.append('cross-version')
+        # (d) stream conversion: decode, render with kept renderer objects, drop, collect
+        srng = ctx.rng('stream-histories')
+        ns = 24 if ctx.tier == 'quick' else 160
+        for i in range(ns if gpool['xv'] else 0):
+            hists.append((srng.choice([1, 1, 2, 50]), gen_stream_history(srng, gpool, srng.randint(12, 40))))
+            kinds.append('stream')
+        logged = evaluate_histories(ctx, mp, pool_path, pool, hists, kinds)
     ctx.count('corpus:histories', ncorpus)
     # the logged cache traffic of the histories against the model
     compare_logs(ctx, logged, hists)
@@ -1019,6 +1239,8 @@ def replay(ctx, path):
     logging.disable(logging.CRITICAL)
     body = json.load(open(path))
     rp = body['replay']
+    if 'seed' in body:
+        ctx.seed = body['seed']      # the cross-version part of the pool is generated from the seed
     mp_ctx = multiprocessing.get_context('spawn')
     if rp.get('mode') == 'cache':
         c = rp['case']
@@ -1034,7 +1256,7 @@ def replay(ctx, path):
             ctx.violation('cache replay: implementation and model differ or content check failed: %r' % (r['bad'],), rp,
                           signature={'kind': 'cache-correspondence', 'cache': rp['kind']})
         return
-    pool = build_pool()
+    pool = build_pool(ctx)
     cdir = os.path.join(core.VERIF, '.cache')
     os.makedirs(cdir, exist_ok=True)
     pool_path = os.path.join(cdir, 'c13_pool_%s.json' % dig(pool))
